@@ -403,7 +403,7 @@ def rule_none(ctx):
         sn = {hcfg.node(s_) for s_ in scans}
         for r_ in rets_h:
             if pr.path_avoiding(hcfg, [hcfg.entry], [hcfg.node(r_)], sn) is not None:
-                early.append(f'line {r_.lineno}: `{norm(r_)}`')
+                early.append(f'line {int(round(r_.lineno))}: `{norm(r_)}`')
     ctx.check(okh and not early, 'C09.NONE', ctx.key(_lh, None, 'answered from the table scan'),
               'every answer of the prevout look-up is reached through the scan of the h table',
               f'the prevout look-up can answer without consulting the table ({early}): a remembered miss outlives the commit that '
